@@ -7,6 +7,8 @@ from vlib import render as RR
 from props import c01
 
 ID = "C02"
+# look-alikes of prelude names (vlib/defs.py HOSTILE) this check's derives are immune to on the unchanged tree
+HOSTILE_OK = ['Result', 'Some', 'Ok', 'Iterator', 'Clone', 'AsRef', 'Send', 'PhantomData']
 PROP_FILE = "Props/C02.v"
 RULE = ("definitions: C01's regression + systematic + seeded random enums without prefix, NonOverlap by the model's predicate, "
         "deriving EnumString together with Display (or the deprecated ToString), AsRefStr, IntoStaticStr and EnumMessage, under all "
